@@ -1,11 +1,21 @@
 (** C05 - input length mismatches are reported as depleted / superfluous, never absorbed.
-    Proved here: what the two errors mean in terms of the decoder's run, for all inputs.  That the events
-    emitted before a depleted error are those of every complete field of a well-formed message follows from
-    C10_prefix_stable together with C01 (C01 is proved for primitive roots only so far; the general case is
-    decided by the correspondence + oracle run on every cut point).
+    PROVED: (composition, every root but the stream, all tables passing the message checks - the regenerated ones do -,
+    every well-formed message w) w cut anywhere before its end decodes to the events of exactly the fields complete
+    within the cut, then InputStreamBytesDepletedError carrying the command code if its field was among them
+    (None otherwise; for the empty input these are the structure events that need no byte);
+    w followed by any non-empty bytes decodes to all events of w, then InputStreamSuperfluousBytesError carrying
+    exactly those bytes and the command code ([Proofs/Asks.v]: a decoder that stopped for lack of input continues,
+    given more, with reading exactly the next byte - so the run on the cut is THE maximal part of the whole run that
+    needs no further byte; [Proofs/Cut.v]).  (mechanism, all inputs well-formed or not) what the two errors mean in
+    terms of the decoder's run.
+    The stream root: a stream of whole messages ends cleanly (C09/C01), and cut at any byte offset at which no message
+    starts it is depleted after the events of the complete fields - a stream ends cleanly ONLY at a message boundary.
+    NOT PROVED: cuts and surplus of inputs that are not well-formed (the mechanism theorems apply; the events are then
+    whatever C10's prefix stability gives); decided by the oracle on every cut point + correspondence.
     Statement file: theorem statements, [exact], Print Assumptions only. *)
 From Coq Require Import ZArith List String Bool.
-From TV Require Import Layout.Types Model.Monad Model.Message Model.Pump Proofs.LowClosure Proofs.Account Proofs.PumpProofs.
+From TV Require Import Layout.Types gen.Tables Model.Monad Model.Message Model.Pump Spec.Value Spec.Message Proofs.LowClosure Proofs.Account Proofs.PumpProofs
+  Proofs.Incremental Proofs.Sim4 Proofs.Sim5 Proofs.Sim10 Proofs.Sim11 Proofs.Asks Proofs.Cut.
 Import ListNotations.
 Open Scope Z_scope.
 
@@ -29,3 +39,71 @@ Theorem C05_suspended_means_input_used_up :
   forall T abort r s tr s', dec_root T abort r s = (tr, s', More) -> inp s' = [].
 Proof. exact (fun T abort r => L_dec_root _ more_empty_lclosed T abort r). Qed.
 Print Assumptions C05_suspended_means_input_used_up.
+
+(** a decoder that stopped for lack of input was asking for the next byte: every decoder function, both modes *)
+Theorem C05_suspended_decoder_reads_next :
+  forall T abort r s y ys tr s', dec_root T abort r s = (tr, s', More) ->
+    exists tr2 s2 o2, dec_root T abort r (ext s (y :: ys)) = (tr ++ Rd y :: tr2, s2, o2).
+Proof. exact (fun T abort r => proj2 (asks_dec_root T abort r)). Qed.
+Print Assumptions C05_suspended_decoder_reads_next.
+
+(** a well-formed message cut short: the events of exactly the complete fields, then depleted with the command code *)
+Theorem C05_cut_message_is_depleted_after_the_complete_fields :
+  forall T r bs y ys vs, msg_tables_ok T = true -> is_stream_root r = false ->
+    sp_root T r (bs ++ y :: ys) = Some vs -> forallb all_valid vs = true ->
+    let n := Z.of_nat (List.length bs) in
+    let seen := items_within n (flat_map items_of vs) 0 in
+    decode T true r bs = (stamp_items n seen 0, ODepleted (items_cc seen None)).
+Proof. intros T r bs y ys vs Hok Hr. exact (cut_is_depleted T Hok r Hr bs y ys vs). Qed.
+Print Assumptions C05_cut_message_is_depleted_after_the_complete_fields.
+
+(** a well-formed message followed by more bytes: all its events, then superfluous with exactly the surplus *)
+Theorem C05_surplus_is_superfluous :
+  forall T r w x xs vs, msg_tables_ok T = true -> is_stream_root r = false ->
+    sp_root T r w = Some vs -> forallb all_valid vs = true ->
+    let n := Z.of_nat (List.length (w ++ x :: xs)) in
+    decode T true r (w ++ x :: xs) =
+      (stamp_items n (flat_map items_of vs) 0, OSuperfluous (x :: xs) (items_cc (flat_map items_of vs) None)).
+Proof. intros T r w x xs vs Hok Hr. exact (surplus_is_superfluous T Hok r Hr w x xs vs). Qed.
+Print Assumptions C05_surplus_is_superfluous.
+
+(** streams: whole messages end cleanly ... *)
+Theorem C05_stream_of_whole_messages_ends_cleanly :
+  forall T bs vs, msg_tables_ok T = true -> sp_stream T (List.length bs) root_path bs = Some vs -> forallb all_valid vs = true ->
+    Z.of_nat (List.length bs) < Z.pos stream_bound -> snd (decode T true RStream bs) = OAccepted.
+Proof.
+  intros T bs vs Hok Hs AV Hb.
+  rewrite (stream_decodes_in_mode T true Hok bs vs Hs ltac:(rewrite ok_leaves_true_all; exact AV) Hb). reflexivity.
+Qed.
+Print Assumptions C05_stream_of_whole_messages_ends_cleanly.
+
+(** ... and only there: cut at an offset where no message starts, a stream of whole messages is depleted after the
+    events of the fields complete within the cut ([root_at n items 0]: some message's root event sits at offset n) *)
+Theorem C05_stream_cut_inside_a_message_is_depleted :
+  forall T bs y ys vs, msg_tables_ok T = true ->
+    sp_stream T (List.length (bs ++ y :: ys)) root_path (bs ++ y :: ys) = Some vs -> forallb all_valid vs = true ->
+    Z.of_nat (List.length (bs ++ y :: ys)) < Z.pos stream_bound ->
+    let n := Z.of_nat (List.length bs) in
+    let seen := items_within n (flat_map items_of vs) 0 in
+    root_at n (flat_map items_of vs) 0 = false ->
+    decode T true RStream bs = (stamp_items n seen 0, ODepleted (items_cc seen None)).
+Proof. intros T bs y ys vs Hok. exact (stream_cut_inside_is_depleted T Hok bs y ys vs). Qed.
+Print Assumptions C05_stream_cut_inside_a_message_is_depleted.
+
+(** the table premise holds of the regenerated tables; the empty input is the cut at 0 *)
+Theorem C05_tables_ok : msg_tables_ok Tables.T = true.
+Proof. vm_compute. reflexivity. Qed.
+Print Assumptions C05_tables_ok.
+
+(** non-vacuity: TPM2_GetRandom(32) is well-formed; cut after its command code it is depleted with that code, cut
+    inside the code without one; with a byte appended it is superfluous with that byte *)
+Example C05_example :
+  well_formed Tables.T RCommand [128;1;0;0;0;12;0;0;1;123;0;32] = true /\
+  snd (decode Tables.T true RCommand [128;1;0;0;0;12;0;0;1;123]) = ODepleted (Some 379) /\
+  snd (decode Tables.T true RCommand [128;1;0;0;0;12;0;0;1]) = ODepleted None /\
+  snd (decode Tables.T true RCommand [128;1;0;0;0;12;0;0;1;123;0;32;7]) = OSuperfluous [7] (Some 379) /\
+  snd (decode Tables.T true RStream [128;1;0;0;0;12;0;0;1;123;0;32]) = OAccepted /\
+  snd (decode Tables.T true RStream [128;1;0;0;0;12;0;0;1;123;0]) = ODepleted (Some 379) /\
+  root_at 11 (match sp_root Tables.T RStream [128;1;0;0;0;12;0;0;1;123;0;32] with Some vs => flat_map items_of vs | None => [] end) 0 = false /\
+  root_at 0 (match sp_root Tables.T RStream [128;1;0;0;0;12;0;0;1;123;0;32] with Some vs => flat_map items_of vs | None => [] end) 0 = true.
+Proof. vm_compute. repeat split. Qed.
